@@ -1,0 +1,15 @@
+//go:build verif
+
+// C13 contracts for package flight13 (comment-only; read by /verif/vc).
+package flight13
+
+// RFC 9147 5.1: a HelloRetryRequest (Flight2) is stateless on the server side and is never
+// retransmitted by a timer.
+
+//@ func GetGenerator
+//@ ensures cookie-request-not-retransmitted: f == Flight2 ==> !retransmit
+//@ ensures cookie-request-has-generator: f == Flight2 ==> ok && gen != nil
+//@ ensures known-flights: ok == (f >= Flight0 && f <= Flight5)
+//@ ensures unknown-flight: !ok ==> gen == nil && !retransmit
+//@ ensures awaiting-flights-retransmit: ok && f != Flight2 ==> retransmit
+//@ end
